@@ -638,6 +638,11 @@ fn inheritance_lattice(rng: &mut Rng, ptr: usize, tier: Tier) -> Project {
         style: rng.next_u64(),
     };
     let with_function = rng.chance(1, 2);
+    // How a level holds the previous one twice: as bases, as plain fields, in arrays; the whole
+    // lattice packed or of alignment 1; deeper when nothing in it has a size.
+    let how = rng.below(4);
+    let packed = rng.chance(1, 2);
+    let depth = if how != 0 && rng.chance(1, 2) { depth + rng.range(10, 40) } else { depth };
     for i in 0..=depth {
         let fields = if i == 0 {
             vec![]
@@ -646,9 +651,13 @@ fn inheritance_lattice(rng: &mut Rng, ptr: usize, tier: Tier) -> Project {
                 .map(|b| Field {
                     vis: true,
                     name: format!("b{b}"),
-                    ty: Ty::Item(i - 1),
+                    ty: match how {
+                        2 => Ty::Item(i - 1).arr(1),
+                        3 if b == 1 => Ty::Item(i - 1).arr(2),
+                        _ => Ty::Item(i - 1),
+                    },
                     address: None,
-                    base: true,
+                    base: how == 0,
                     doc: None,
                 })
                 .collect()
@@ -662,8 +671,8 @@ fn inheritance_lattice(rng: &mut Rng, ptr: usize, tier: Tier) -> Project {
                 fields,
                 vftable: None,
                 size: None,
-                align: Some(1),
-                packed: false,
+                align: (!packed).then_some(1),
+                packed,
                 flags: Flags::default(),
                 singleton: None,
                 impl_funcs: if i == 0 && with_function {
@@ -1137,7 +1146,7 @@ pub fn generate(seed: u64, tier: Tier) -> Case {
         Tier::Thorough => (24, 6),
     };
     let ptr = if rng.chance(1, 2) { 4 } else { 8 };
-    let project = if rng.chance(1, 200) {
+    let project = if rng.chance(1, 100) {
         // A lattice of double inheritance: d levels, two bases of the previous level each. The
         // hierarchy it describes has 2^d base sub-objects; whatever is done with them must stay
         // proportional to that number.
